@@ -447,6 +447,27 @@ def install_sim_locks(modules):
             pass
         return None
 
+    modnames = {m.__name__ for m in modules}
+
+    def convert_attrs(obj, label):
+        """Locks held in the attributes of a module-level object of a class of these modules
+        (a memo object with its own lock, a registry ...)."""
+        names = list(getattr(obj, "__dict__", {}) or {})
+        for klass in type(obj).__mro__:
+            slots = klass.__dict__.get("__slots__", ())
+            names.extend([slots] if isinstance(slots, str) else list(slots))
+        for an in names:
+            try:
+                aval = getattr(obj, an)
+            except AttributeError:
+                continue
+            anew = convert(aval, f"{label}.{an}") if isinstance(aval, real_lock_types) else None
+            if anew is not None:
+                try:
+                    object.__setattr__(obj, an, anew)
+                except (AttributeError, TypeError):
+                    pass
+
     for mod in modules:
         for name, val in list(vars(mod).items()):
             new = convert(val, f"{mod.__name__}.{name}")
@@ -457,6 +478,10 @@ def install_sim_locks(modules):
                     cnew = convert(cval, f"{val.__name__}.{cname}")
                     if cnew is not None:
                         setattr(val, cname, cnew)
+                    elif not isinstance(cval, type) and getattr(type(cval), "__module__", None) in modnames:
+                        convert_attrs(cval, f"{val.__name__}.{cname}")
+            elif not isinstance(val, type) and getattr(type(val), "__module__", None) in modnames:
+                convert_attrs(val, f"{mod.__name__}.{name}")
     return registry
 
 
